@@ -361,14 +361,23 @@ func runWorker(bin string, env []string, outFile string, timeout time.Duration) 
 
 var frameRe = regexp.MustCompile(`^\s+(\S+)\(\)\s*$`)
 
-// raceSignature extracts, for each of the two conflicting accesses of the first
-// report, the innermost function that belongs to the repository (or generated code).
+// raceSignature names the two conflicting accesses of the first report by the
+// function at the top of each access stack that is not runtime / reflect / sync
+// plumbing. A race whose access sits in harness code (verif/..., vscratch/scen/...)
+// is the harness's own and is reported as harness trouble, never as a violation.
 func raceSignature(log string) string {
 	var sigs []string
+	harness := false
 	sc := bufio.NewScanner(strings.NewReader(log))
 	sc.Buffer(make([]byte, 1<<20), 1<<20)
 	inAccess := false
 	got := false
+	clean := func(fn string) string {
+		fn = strings.TrimPrefix(fn, "github.com/PapaCharlie/go-restli/")
+		fn = regexp.MustCompile(`\.func\d+(\.\d+)*$`).ReplaceAllString(fn, "")
+		fn = regexp.MustCompile(`\[[^\]]*\]`).ReplaceAllString(fn, "")
+		return fn
+	}
 	for sc.Scan() {
 		line := sc.Text()
 		switch {
@@ -384,11 +393,17 @@ func raceSignature(log string) string {
 		case inAccess && !got:
 			if m := frameRe.FindStringSubmatch(line); m != nil {
 				fn := m[1]
-				if strings.Contains(fn, "PapaCharlie/go-restli") || strings.HasPrefix(fn, "vscratch/fam") {
-					fn = strings.TrimPrefix(fn, "github.com/PapaCharlie/go-restli/")
-					fn = regexp.MustCompile(`\.func\d+(\.\d+)*$`).ReplaceAllString(fn, "")
-					fn = regexp.MustCompile(`\[\.\.\.\]`).ReplaceAllString(fn, "")
-					sigs = append(sigs, fn)
+				switch {
+				case strings.HasPrefix(fn, "runtime.") || strings.HasPrefix(fn, "reflect.") || strings.HasPrefix(fn, "sync.") || strings.HasPrefix(fn, "sync/atomic.") || strings.HasPrefix(fn, "internal/"):
+					continue
+				case strings.HasPrefix(fn, "verif/sim/simrt.") || strings.HasPrefix(fn, "verif/sim/simsync."):
+					continue // seam shims: the access belongs to their caller
+				case strings.HasPrefix(fn, "verif/") || strings.HasPrefix(fn, "vscratch/scen/"):
+					harness = true
+					sigs = append(sigs, clean(fn))
+					got = true
+				default:
+					sigs = append(sigs, clean(fn))
 					got = true
 				}
 			}
@@ -396,11 +411,14 @@ func raceSignature(log string) string {
 	}
 out:
 	if len(sigs) == 0 {
-		return "race:outside-repo"
+		return "race:unattributed"
 	}
 	sort.Strings(sigs)
 	if len(sigs) > 2 {
 		sigs = sigs[:2]
+	}
+	if harness {
+		return "harness-race:" + strings.Join(sigs, "|")
 	}
 	return "race:" + strings.Join(sigs, "|")
 }
@@ -424,6 +442,10 @@ func classify(wo *workerOut, prop string, hangIsViolation bool, b ...*Batch) (*V
 	if v.Oracle == "race" {
 		v.Signature = raceSignature(wo.raceLog)
 		v.Message = "data race reported by the race detector under a serial, simulator-chosen schedule\n" + firstLines(wo.raceLog, 70)
+		if strings.HasPrefix(v.Signature, "harness-race:") {
+			v.Property = "HARNESS"
+			return v, wo.res.Choices, wo.res.ViolRun
+		}
 		if len(b) > 0 && b[0].RaceProp != "" && (b[0].RaceOwn == "" || strings.Contains(v.Signature, b[0].RaceOwn)) {
 			v.Property = b[0].RaceProp
 		}
